@@ -119,3 +119,41 @@ def point_lists(D: int, lo: float, hi: float, min_n: int = 1, max_n: int = 6, st
 
 def dtypes():
     return st.sampled_from(["float32", "float64"])
+
+
+# ---------------------------------------------------------------------------------------
+# grids obtained through deepali's own derivation methods from a parent grid that was already *used*
+# (descriptor interpreted by vlib.case.derive_grid).  Purpose: state carried by Grid objects between calls
+# (caches, shared tensors) is only visible on grids with a history.
+
+DERIVE_OPS = ["spacing", "direction", "center", "origin", "align_corners", "resize", "resample", "downsample", "upsample",
+              "crop", "pad", "center_crop", "center_pad", "narrow", "reshape", "clone", "copy", "deepcopy", "pickle"]
+N_WARM = 12  # number of warm-up calls known to vlib.case.warm_grid
+
+
+@st.composite
+def derivation_steps(draw, D: int, max_steps: int = 2):
+    """1..max_steps derivation steps, each {"op", "warm" (bitmask of read-only calls made on the grid first), args...}."""
+    steps = []
+    for _ in range(draw(st.integers(1, max_steps))):
+        op = draw(st.sampled_from(DERIVE_OPS))
+        step = {"op": op, "warm": draw(st.one_of(st.just(0), st.just((1 << N_WARM) - 1), st.integers(1, (1 << N_WARM) - 1)))}
+        if op in ("spacing", "resample"):
+            step["factor"] = draw(st.lists(st.sampled_from([0.5, 2.0, 0.25, 4.0] if op == "resample" else [0.5, 2.0, 1.25, 0.8, 3.0]),
+                                           min_size=D, max_size=D))
+        elif op == "direction":
+            step["dir"] = draw(directions(D))
+        elif op in ("center", "origin"):
+            step["offset"] = draw(st.lists(qfloat(-20.0, 20.0, 0.01), min_size=D, max_size=D))
+        elif op in ("resize", "reshape", "center_crop", "center_pad"):
+            step["delta"] = draw(st.lists(st.integers(-3, 5), min_size=D, max_size=D))
+        elif op in ("downsample", "upsample"):
+            step["levels"] = draw(st.sampled_from([1, 1, 2]))
+        elif op in ("crop", "pad"):
+            step["num"] = draw(st.lists(st.integers(-2, 3), min_size=2 * D, max_size=2 * D))
+        elif op == "narrow":
+            step["dim"] = draw(st.integers(0, D - 1))
+            step["start"] = draw(st.integers(0, 2))
+            step["length"] = draw(st.integers(2, 6))
+        steps.append(step)
+    return steps
